@@ -14,7 +14,7 @@ import (
 func init() {
 	register(&PropSpec{
 		ID:       "C17",
-		Patterns: []string{"./pkg/proxy", "./pkg/router", "./pkg/stream/http2", "./pkg/stream/http"},
+		Patterns: []string{"./pkg/proxy", "./pkg/router", "./pkg/stream/http2", "./pkg/stream/http", "./istio/istio1106/xds/conv"},
 		Explanation: "(R1) header finalisation order: the route's parser runs before the virtual host's, which runs before the router-global one, for requests and responses; evaluateHeaders applies additions before removals and joins with ',' only when the formatter says append and a non-empty value exists; " +
 			"(R2) short-circuit: in chooseHost the direct-response and redirect arms reply with the rule's own status/body/code and return before any connection pool is looked at; (R3) retry only before the response starts: the retry decision precedes the store downstreamResponseStarted=true which precedes appendHeaders; a reset retries only when !downstreamResponseStarted; doRetry runs only from the Retry phase; " +
 			"(R4) budget: shouldRetry returns NoRetry when the remaining count is 0 and decrements it before any ShouldRetry answer; nothing else writes the budget after construction; (R5) a retry re-selects host and pool and builds a new upstream request from them before sending; " +
